@@ -43,15 +43,28 @@ var (
 type chunk struct {
 	fam      family
 	from, to int64
-	alone    bool // attribution re-run: generous budgets
+	alone    bool // confirmation run: one case, fresh worker, the aloneCPU budget
+	tight    bool // quick tier only: a case whose budget key is a listed known finding, run with REDUCED budgets
+	//             (it only has to be seen running away; it is not confirmed against the full budget)
 }
 
 type incident struct {
-	fam  string
-	idx  int64
-	kind string // death | hang
-	msg  string
+	fam   string
+	idx   int64
+	kind  string // death | cpu | memory
+	msg   string
+	alone bool // observed in a confirmation run (fresh worker, aloneCPU budget)
+	tight bool // observed under the reduced budgets of a known-finding case (quick)
 }
+
+// budgets of a `tight` chunk (quick tier, known resource-exhaustion cases only)
+const (
+	tightCPU = 10 * time.Second
+	tightRSS = 2 << 30
+)
+
+// maxAlone bounds the number of concurrent confirmation runs (each may grow to the resident-set cap)
+const maxAlone = 5
 
 type sched struct {
 	mu        sync.Mutex
@@ -64,20 +77,70 @@ type sched struct {
 	faultSrc  map[string]string   // case ID -> source (kept for the minimal one)
 	review    map[string]int64    // other-go-panic message -> count
 	reviewEx  map[string]string
-	cpuLimit  time.Duration
+	cpuLimit  time.Duration // per-case CPU budget in a batch (first pass: a filter that only nominates suspects)
+	aloneCPU  time.Duration // CPU budget of a confirmation run (the budget a violation is judged against)
 	thorough  bool
 	spawned   atomic.Int64
+
+	known        map[string]bool // keys listed as known findings for this property
+	aloneRunning int
+	deadline     time.Time // hard wall deadline for confirmation runs (zero: none)
+	overdue      []string  // case ids whose confirmation run was cut by the deadline
 }
 
-func (s *sched) next() (chunk, bool) {
+// next hands out the first runnable chunk; confirmation (alone) chunks are limited to maxAlone at a time.
+// wait=true: nothing runnable right now, but the queue is not empty.
+func (s *sched) next() (c chunk, ok, wait bool) {
 	s.mu.Lock()
 	defer s.mu.Unlock()
-	if len(s.queue) == 0 {
-		return chunk{}, false
+	for i, q := range s.queue {
+		if q.alone && s.aloneRunning >= maxAlone {
+			continue
+		}
+		s.queue = append(s.queue[:i:i], s.queue[i+1:]...)
+		if q.alone {
+			s.aloneRunning++
+		}
+		return q, true, false
 	}
-	c := s.queue[0]
-	s.queue = s.queue[1:]
-	return c, true
+	return chunk{}, false, len(s.queue) > 0
+}
+
+func (s *sched) release(c chunk) {
+	if c.alone {
+		s.mu.Lock()
+		s.aloneRunning--
+		s.mu.Unlock()
+	}
+}
+
+// loadKnownKeys reads the keys listed as known findings of this property (the same file vk matches
+// r.Violation keys against).
+func loadKnownKeys(id string) map[string]bool {
+	m := map[string]bool{}
+	f, err := os.Open(vk.Root + "/known_findings.jsonl")
+	if err != nil {
+		return m
+	}
+	defer f.Close()
+	sc := bufio.NewScanner(f)
+	sc.Buffer(make([]byte, 1<<20), 1<<20)
+	for sc.Scan() {
+		var e struct {
+			Property, Kind, Key string
+		}
+		if json.Unmarshal(sc.Bytes(), &e) == nil && e.Property == id && e.Kind == "known" {
+			m[e.Key] = true
+		}
+	}
+	return m
+}
+
+func incidentKey(in incident, caseID string) string {
+	if in.kind == "death" {
+		return "worker-death" + in.msg // grouped by crash site: a Go fatal error is deterministic
+	}
+	return "resource-budget-exceeded: " + caseID // one key per failing input
 }
 
 func (s *sched) pushFront(c chunk) {
@@ -87,6 +150,7 @@ func (s *sched) pushFront(c chunk) {
 }
 
 type worker struct {
+	ncases int64 // cases started on this worker
 	cmd    *exec.Cmd
 	in     io.WriteCloser
 	out    *bufio.Scanner
@@ -230,8 +294,12 @@ func (s *sched) runChunk(w *worker, c chunk) (alive bool) {
 	var curCPU time.Duration
 	var curStart time.Time
 	limit := s.cpuLimit
+	memCap := int64(rssCap)
 	if c.alone {
-		limit *= 4
+		limit = s.aloneCPU
+	}
+	if c.tight {
+		limit, memCap = tightCPU, tightRSS
 	}
 	var local [nClasses]int64
 	var done int64
@@ -267,6 +335,7 @@ func (s *sched) runChunk(w *worker, c chunk) (alive bool) {
 			switch {
 			case strings.HasPrefix(ln, "S "):
 				cur, _ = strconv.ParseInt(ln[2:], 10, 64)
+				w.ncases++
 				curCPU = cpuTime(w.cmd.Process.Pid)
 				curStart = time.Now()
 			case strings.HasPrefix(ln, "D "):
@@ -297,15 +366,28 @@ func (s *sched) runChunk(w *worker, c chunk) (alive bool) {
 				rss := rssBytes(w.cmd.Process.Pid)
 				kind, msg := "", ""
 				switch {
-				case rss > rssCap:
+				case rss > memCap:
 					kind = "memory"
 				case used > limit || time.Since(curStart) > 20*limit:
 					kind = "cpu"
 				}
-				if kind != "" {
-					w.quitDump()
+				if kind == "" && c.alone && !s.deadline.IsZero() && time.Now().After(s.deadline) {
+					// the tier's wall budget is used up: the confirmation run is cut, the case stays unattributed
+					w.kill()
 					flush()
-					msg = fmt.Sprintf("%s: %.0fs CPU used (limit %.0fs), RSS %d MB (cap %d MB)", kind, used.Seconds(), limit.Seconds(), rss>>20, rssCap>>20)
+					s.mu.Lock()
+					s.overdue = append(s.overdue, idOf(c.fam, cur))
+					s.mu.Unlock()
+					return false
+				}
+				if kind != "" {
+					if c.tight {
+						w.kill() // no goroutine dump needed for a listed case
+					} else {
+						w.quitDump()
+					}
+					flush()
+					msg = fmt.Sprintf("%s: %.0fs CPU used (limit %.0fs), RSS %d MB (cap %d MB)", kind, used.Seconds(), limit.Seconds(), rss>>20, memCap>>20)
 					s.incident(c, cur, kind, msg)
 					if cur+1 < c.to {
 						s.pushFront(chunk{fam: c.fam, from: cur + 1, to: c.to})
@@ -328,7 +410,7 @@ func (s *sched) famHistOf(name string) *[nClasses]int64 {
 
 func (s *sched) incident(c chunk, idx int64, kind, msg string) {
 	s.mu.Lock()
-	s.incidents = append(s.incidents, incident{fam: c.fam.Name(), idx: idx, kind: kind, msg: msg})
+	s.incidents = append(s.incidents, incident{fam: c.fam.Name(), idx: idx, kind: kind, msg: msg, alone: c.alone, tight: c.tight})
 	s.mu.Unlock()
 }
 
@@ -451,9 +533,25 @@ func (s *sched) runAll(nw int, ignoreBudget bool) {
 				if !ignoreBudget && r.Expired() {
 					return
 				}
-				c, ok := s.next()
+				c, ok, wait := s.next()
 				if !ok {
+					if wait {
+						time.Sleep(200 * time.Millisecond)
+						continue
+					}
 					return
+				}
+				if c.alone && !s.deadline.IsZero() && time.Now().After(s.deadline) {
+					s.mu.Lock()
+					s.overdue = append(s.overdue, idOf(c.fam, c.from))
+					s.mu.Unlock()
+					s.release(c)
+					continue
+				}
+				if w != nil && c.alone && w.ncases > 0 { // confirmation runs get a fresh worker
+					w.in.Close()
+					w.kill()
+					w = nil
 				}
 				if w == nil {
 					var err error
@@ -461,7 +559,9 @@ func (s *sched) runAll(nw int, ignoreBudget bool) {
 						r.HarnessError("%v", err)
 					}
 				}
-				if !s.runChunk(w, c) {
+				alive := s.runChunk(w, c)
+				s.release(c)
+				if !alive {
 					w = nil
 				}
 			}
@@ -477,13 +577,20 @@ func main() {
 		workerMain()
 		return
 	}
-	r.SetBudget(15*time.Minute, 22*time.Minute)
+	// wall budgets. quick: never reached on a normal box (the tier takes ~2 min). thorough: the first pass stops
+	// after 16 min, confirmation runs are cut at 26 min (cases cut there are listed as unattributed).
+	r.SetBudget(15*time.Minute, 16*time.Minute)
+	t0 := time.Now()
 	g := newGen(r.Thorough())
 	s := &sched{famDone: map[string]int64{}, famHist: map[string]*[nClasses]int64{}, faults: map[string][]string{}, faultSrc: map[string]string{},
 		review: map[string]int64{}, reviewEx: map[string]string{}, thorough: r.Thorough()}
-	s.cpuLimit = 40 * time.Second
+	s.known = loadKnownKeys(r.ID)
+	// quick: the first-pass filter is deliberately generous (60 s): on a loaded box legitimate heavy cases (string
+	// doubling up to the allocation limit: 40-50 CPU-s) would otherwise be nominated and cost a confirmation run each
+	s.cpuLimit, s.aloneCPU = 60*time.Second, 160*time.Second
 	if r.Thorough() {
-		s.cpuLimit = 90 * time.Second
+		s.cpuLimit, s.aloneCPU = 90*time.Second, 360*time.Second
+		s.deadline = t0.Add(r.Budget + 10*time.Minute)
 	}
 	// queue: heavy singletons first, bulk token sequences last (budget cap hits the bulk, per-family completion is reported)
 	// and within the token sequences: shorter first across all templates, so that a capped run has covered every
@@ -510,7 +617,14 @@ func main() {
 	if d := os.Getenv("C11_DUMP"); d != "" {
 		dumpF, _ = os.Create(d)
 	}
+	// Cases whose budget key ("resource-budget-exceeded: <case id>") is a listed known finding are taken out of the
+	// batches and run on their own at the head of the queue:
+	//  quick:    under REDUCED budgets (tightCPU / tightRSS) — they only have to be seen running away; they are NOT
+	//            confirmed alone against the full budget (this is said in the evidence);
+	//  thorough: directly as a confirmation run (fresh worker, aloneCPU budget), skipping the pointless first pass.
 	var total int64
+	var head []chunk
+	var knownCases []string
 	for _, f := range fams {
 		if sub := os.Getenv("C11_FAMS"); sub != "" && !strings.Contains(sub, f.Name()) {
 			continue
@@ -524,19 +638,45 @@ func main() {
 		case "mutations":
 			step = 150
 		}
-		for a := int64(0); a < f.Size(); a += step {
+		var cuts []int64 // indices of known budget cases (only the small hand-written families can have them)
+		if len(s.known) > 0 && !strings.HasPrefix(f.Name(), "seq") {
+			for i := int64(0); i < f.Size(); i++ {
+				if id := idOf(f, i); s.known["resource-budget-exceeded: "+id] {
+					cuts = append(cuts, i)
+					knownCases = append(knownCases, id)
+					head = append(head, chunk{fam: f, from: i, to: i + 1, alone: r.Thorough(), tight: r.Quick()})
+				}
+			}
+		}
+		for a := int64(0); a < f.Size(); {
 			b := a + step
 			if b > f.Size() {
 				b = f.Size()
 			}
-			s.queue = append(s.queue, chunk{fam: f, from: a, to: b})
+			for _, c := range cuts {
+				if c == a {
+					b = a // the known case itself: skipped here
+					break
+				}
+				if c > a && c < b {
+					b = c
+				}
+			}
+			if b > a {
+				s.queue = append(s.queue, chunk{fam: f, from: a, to: b})
+				a = b
+			} else {
+				a++
+			}
 		}
 		total += f.Size()
 	}
+	s.queue = append(head, s.queue...)
 	nw := 12
 	s.runAll(nw, false)
+	tFirst := time.Since(t0)
 
-	// attribution: every death / hang-suspect is re-run ALONE in a fresh worker with 4x the CPU budget
+	// attribution: every death / hang-suspect is re-run ALONE in a fresh worker with the aloneCPU budget (160 s quick, 360 s thorough)
 	first := s.incidents
 	s.incidents = nil
 	sort.Slice(first, func(i, j int) bool {
@@ -549,16 +689,40 @@ func main() {
 	// Deaths are always re-run (they end quickly); of the budget suspects the two smallest rungs per construct
 	// (case id without its trailing number) are re-run, at most maxAttr in total — larger rungs of the same
 	// ladder add nothing to the verdict.
+	// Quick tier: a suspect whose key is already a listed known finding is NOT re-run alone (that costs 160 CPU-s
+	// per case and only re-establishes what is listed); it is reported through r.Violation (-> KNOWN-FINDING) on the
+	// strength of the first-pass observation, and listed under coverage.known_findings_not_reconfirmed. Suspects with
+	// any other key get the full confirmation run. Thorough tier: every suspect is confirmed alone.
 	const maxAttr = 12
 	var unattributed []string
+	var notReconfirmed []map[string]any
 	s.mu.Lock()
-	s.queue = nil
+	var carry []chunk // confirmation runs of listed cases that the first pass did not get to (thorough, budget expired)
+	for _, c := range s.queue {
+		if c.alone {
+			carry = append(carry, c)
+		}
+	}
+	s.queue = carry
 	s.mu.Unlock()
 	perConstruct := map[string]int{}
 	nAttr := 0
 	for _, in := range first {
 		id := idOf(g.family(in.fam), in.idx)
+		if in.alone { // thorough: a known budget case, run directly as a confirmation run
+			s.incidents = append(s.incidents, in)
+			continue
+		}
 		fmt.Printf("(informative) first-pass incident: %s [%s] %s\n", id, in.kind, in.msg)
+		if key := incidentKey(in, id); r.Quick() && s.known[key] {
+			budgets := fmt.Sprintf("in a batch: CPU %.0fs, RSS cap %d MB", s.cpuLimit.Seconds(), rssCap>>20)
+			if in.tight {
+				budgets = fmt.Sprintf("on its own, reduced budgets: CPU %.0fs, RSS cap %d MB", tightCPU.Seconds(), int64(tightRSS)>>20)
+			}
+			notReconfirmed = append(notReconfirmed, map[string]any{"case": id, "known_key": key, "observed": in.kind, "budgets": budgets})
+			s.incidents = append(s.incidents, in)
+			continue
+		}
 		construct := strings.TrimRight(id, "0123456789")
 		if in.kind != "death" {
 			if perConstruct[construct] >= 2 || nAttr >= maxAttr {
@@ -571,11 +735,14 @@ func main() {
 		s.queue = append(s.queue, chunk{fam: g.family(in.fam), from: in.idx, to: in.idx + 1, alone: true})
 	}
 	if len(s.queue) > 0 {
-		s.runAll(5, true)
+		s.runAll(maxAlone, true)
 	}
+	sort.Strings(s.overdue)
+	unattributed = append(unattributed, s.overdue...)
 	if len(unattributed) > 0 {
 		r.MarkCapped()
 	}
+	tAttr := time.Since(t0) - tFirst
 	confirmed := s.incidents
 	sort.Slice(confirmed, func(i, j int) bool {
 		if confirmed[i].fam != confirmed[j].fam {
@@ -590,14 +757,7 @@ func main() {
 	classes := map[string]*group{}
 	for _, in := range confirmed {
 		c := g.family(in.fam).Case(in.idx)
-		var key string
-		if in.kind == "death" {
-			// grouped by crash site: a Go fatal error is deterministic
-			key = "worker-death" + in.msg
-		} else {
-			// one key per failing input: which of the two budgets trips first is a matter of timing
-			key = "resource-budget-exceeded: " + c.ID
-		}
+		key := incidentKey(in, c.ID) // budget cases: one key per failing input (which of the two budgets trips first is a matter of timing)
 		gr := classes[key]
 		if gr == nil {
 			gr = &group{}
@@ -635,7 +795,8 @@ func main() {
 			r.Outcome("VIOLATION:resource-budget-exceeded")
 		}
 		r.Violation(k, map[string]any{"count": len(cs), "minimal_case": cs[0].ID, "minimal_source": src, "gas_limit": cs[0].Gas, "cases": ids,
-			"budgets": fmt.Sprintf("CPU %.0fs (4x when re-run alone), RSS cap %d MB, VM allocation limit 500 MB", s.cpuLimit.Seconds(), rssCap>>20)})
+			"observations": classes[k].notes,
+			"budgets": fmt.Sprintf("CPU %.0fs in a batch, %.0fs when re-run alone, RSS cap %d MB, VM allocation limit 500 MB", s.cpuLimit.Seconds(), s.aloneCPU.Seconds(), rssCap>>20)})
 	}
 	keys = keys[:0]
 	for k := range s.faults {
@@ -669,7 +830,8 @@ func main() {
 	if len(rev) > 40 {
 		rev = rev[:40]
 	}
-	fmt.Printf("(informative, timing-dependent) workers spawned=%d, first-pass incidents=%d, confirmed when re-run alone=%d\n", s.spawned.Load(), len(first), len(confirmed))
+	fmt.Printf("(informative, timing-dependent) workers spawned=%d, first-pass incidents=%d, reported=%d (of which known findings not re-confirmed alone=%d); first pass %.0fs, confirmation runs %.0fs\n",
+		s.spawned.Load(), len(first), len(confirmed), len(notReconfirmed), tFirst.Seconds(), tAttr.Seconds())
 	perFam := map[string]any{}
 	var executed int64
 	for _, f := range g.fams {
@@ -696,12 +858,14 @@ func main() {
 		"cases enter at the keeper (MsgRun/MsgAddPackage ValidateBasic + VMKeeper.Run/AddPackage) of a re-created vm test environment; ante handler, signatures and the baseapp's own recover are not in the loop",
 		"raw recovered values are observed through a hook inserted (build overlay) at the top of the keeper's doRecoverInternal; values recovered and rendered as errors deeper (parser/Go2Gno) are recognised by their 'runtime error:' text",
 		"Go-level panics that are not runtime.Error (strings/errors thrown by the preprocessor or machine) are NOT flagged; they are listed under review_candidates",
-		"worker memory: parent-enforced 4 GiB resident-set cap (the VM allocator limit is 500 MB of accounted bytes) with RLIMIT_AS 12 GiB as backstop; per-case budget is CPU time of the worker process (not wall clock): 40 s quick / 90 s thorough in a batch, suspects are re-run alone in a fresh worker with 4x that before being reported",
+		"worker memory: parent-enforced 4 GiB resident-set cap (the VM allocator limit is 500 MB of accounted bytes) with RLIMIT_AS 12 GiB as backstop; per-case budget is CPU time of the worker process (not wall clock): 60 s quick / 90 s thorough in a batch (a filter that nominates suspects), suspects are re-run alone in a fresh worker with 160 s quick / 360 s thorough before being reported",
+		"known findings (keys listed for this property in known_findings.jsonl): in the QUICK tier a suspect whose key is already listed is not re-run alone, and the cases with a listed budget key are run on their own under reduced budgets (CPU 10 s, RSS 2 GiB) just to see them run away - they are reported as KNOWN-FINDING on that observation and enumerated in coverage.known_findings_not_reconfirmed; any suspect with an unlisted key still gets the full confirmation run. In the THOROUGH tier listed budget cases are run directly as confirmation runs (fresh worker, 360 s) and every other suspect is confirmed alone; confirmation runs still going at the tier's hard deadline (first-pass budget + 10 min) are cut and listed as unattributed_suspects",
 		"gas limits: 1e7 token sequences, 2e7 mutations, 2e7 menus, 1e8 constants, 3e9 (block maximum) ladders",
 	}
 	r.Finish("all token sequences of length <= k over the 34-token alphabet in 5 templates (quick k<=3 + k=4 over 16 tokens; thorough k<=4 + k=5 over 16 tokens); ladders: 44 constructs x 17 sizes up to 2048 (quick) / 27 sizes up to 200000 or 1 MB of source (thorough); constant, cycle and resource menus; all single-token deletions/substitutions/duplications of 40 programs. distinct = distinct (family, index) cases executed",
 		exhaustive, map[string]any{
-			"families": perFam, "total_cases": total, "executed": executed, "confirmed_incidents": len(confirmed), "unattributed_suspects": unattributed,
-			"review_candidates": rev, "alphabet": alphabet, "sub_alphabet": subAlphabet, "cpu_limit_s": s.cpuLimit.Seconds(),
+			"families": perFam, "total_cases": total, "executed": executed, "reported_incidents": len(confirmed), "confirmed_alone": len(confirmed) - len(notReconfirmed), "unattributed_suspects": unattributed,
+			"known_findings_not_reconfirmed": notReconfirmed, "known_budget_cases_run_on_their_own": knownCases,
+			"review_candidates": rev, "alphabet": alphabet, "sub_alphabet": subAlphabet, "cpu_limit_s": s.cpuLimit.Seconds(), "cpu_limit_alone_s": s.aloneCPU.Seconds(),
 		})
 }
